@@ -230,7 +230,7 @@ POOL = (
     [(k, s) for s, k in refgrammar.KEYWORD_KIND.items()]
     + [(c, c) for c in refgrammar.LITERALS]
     + [("NL", "\n"), ("NL", "\n"), (";", ";")]
-    + [("ID", s) for s in ["g", "q", "a", "x", "foo", "a.b", "prepare_all", "a.1", "q.0x.y_"]]
+    + [("ID", s) for s in ["g", "q", "a", "x", "foo", "a.b", "prepare_all", "a.1", "q.0x.y_", "let.x", "from.foo", "a.loop", "looper"]]
     + [("DOTID", ".m"), ("DOTID", "."), ("DOTID", ".m.2x")]
     + [("INT", s) for s in ["0", "1", "7", "-1", "+3"]]
     + [("NUMBER", s) for s in ["0.5", "-1.5e-3", "2.0"]]
@@ -243,7 +243,7 @@ def _nearmiss_case(ch):
     prog, _b = gen.make_prog(ch, gen.Cfg(max_depth=3, max_body=3, max_lets=2, max_maps=2, max_macros=2, general_numbers=False))
     muts = []
     for _ in range(ch.pick([0, 1, 1, 1, 1, 1, 2, 2])):
-        muts.append([ch.pick(["delete", "duplicate", "swap", "replace", "replace", "insert", "bad-register-size", "import-statement"]), ch.int(0, 10**6), ch.int(0, len(POOL) - 1)])
+        muts.append([ch.pick(["delete", "duplicate", "swap", "replace", "replace", "insert", "wrap", "bad-register-size", "import-statement"]), ch.int(0, 10**6), ch.int(0, len(POOL) - 1)])
     order = [[ch.int(0, 50), ch.int(0, 50)] for _ in range(ch.pick([0, 0, 1, 1, 2]))]
     return {"prog": prog, "seps": ch.ints(16, 0, 5), "muts": muts, "order": order}
 
@@ -406,6 +406,16 @@ def negative(case):
             toks[i] = POOL[pool_i]
         elif op == "insert":
             toks.insert(i, POOL[pool_i])
+        elif op == "wrap":
+            # a BALANCED pair of brackets around a run of whole statements (or tokens): no single
+            # token edit produces `{ { g } }` or `< < g > >`; the recognizer decides
+            o, c = [("{", "}"), ("<", ">"), ("{", "}"), ("[", "]")][pool_i % 4]
+            starts = [t for t in range(len(toks)) if t == 0 or toks[t - 1][0] in ("NL", ";", "{", "<", "|")]
+            a = starts[where % len(starts)]
+            ends = [e for e in range(a, len(toks)) if e == len(toks) - 1 or toks[e + 1][0] in ("NL", ";", "}", ">", "|")]
+            b = ends[(pool_i // 4) % min(len(ends), 4)] if ends else a
+            toks.insert(b + 1, (c, c))
+            toks.insert(a, (o, o))
         elif op == "import-statement":
             # grammatical, refused by its rule ("not yet implemented"): a whole statement put
             # where a statement may stand
